@@ -16,9 +16,10 @@ import (
 )
 
 type World struct {
-	Dir     string // HOME and basedir
-	DevName string
-	Policy  string // "p1"
+	Dir      string // HOME and basedir
+	DevName  string
+	Policy   string // "p1"
+	TestTime string // value of TEST_TIME for the tool ("" = simulated clock of the bubble)
 }
 
 type Opts struct {
@@ -90,10 +91,10 @@ func New(root string, o Opts) (*World, error) {
 }
 
 func (w *World) CodeFile() string {
-	return filepath.Join(w.Dir, "policies", "p1", "code", w.DevName)
+	return filepath.Join(w.Dir, "policies", w.Policy, "code", w.DevName)
 }
 
-func (w *World) LogDir() string { return filepath.Join(w.Dir, "policies", "p1", "log") }
+func (w *World) LogDir() string { return filepath.Join(w.Dir, "policies", w.Policy, "log") }
 
 type Result struct {
 	Exit    int
@@ -151,6 +152,10 @@ func (w *World) Call(args []string, mainFn func() int) (res Result) {
 	os.Setenv("TMPDIR", filepath.Join(w.Dir, "tmp"))
 	os.Unsetenv("SIMULATE_ROUTER")
 	os.Unsetenv("TEST_TIME")
+	if w.TestTime != "" {
+		os.Setenv("TEST_TIME", w.TestTime)
+		defer os.Unsetenv("TEST_TIME")
+	}
 	os.Chdir(w.Dir)
 	start := time.Now()
 	defer func() {
